@@ -10,6 +10,8 @@
 //   at <dump> <hex ptr>   jbl_ptr_alloc, jbn_at/jbn_at2 on the tree, jbl_at/jbl_at2 on the binary form
 //   dec <hex binn>        jbl_from_buf_keep -> jbl_to_node -> dump
 //   ptr <hex ptr>         jbl_ptr_alloc only
+//   mx <dump> <hex ptr> <probe dump|-> <hex text|->   every path consumer on every producer of the value (see below)
+//   mxc <dump> <hex text|->                           every value consumer on every producer of the value
 #include "iwjson_internal.h"
 #include "iwxstr.h"
 #include "hcommon.h"
@@ -333,6 +335,542 @@ static void put_ptr(const char *path) {
   }
 }
 
+// ================================================================ producer x consumer matrix (mx / mxc queries)
+// Every way the public header offers to obtain a tree (struct jbl_node) or a binary document (struct jbl) holding the
+// value of <dump> is built ("producer"); every look-up / compare / copy / print entry point ("consumer") is then run on
+// every producer.  One answer string per cell; the cells of a consumer are printed grouped by answer:
+//   <consumer>=<answer>@<producer>,<producer>...[|<answer>@<producer>,...]
+// (no blanks inside a field).  Tree producers are named T.*, binary producers B.*.
+struct cell { const char *cons; const char *prod; char *ans; };
+static struct cell CELLS[8192];
+static int NCELLS;
+static FILE *cell_sv, *cell_ms;
+static char *cell_buf;
+static size_t cell_len;
+
+static void cb(void) {
+  cell_sv = stdout; cell_buf = 0; cell_len = 0;
+  cell_ms = open_memstream(&cell_buf, &cell_len);
+  stdout = cell_ms;
+}
+
+static void ce(const char *cons, const char *prod) {
+  fflush(cell_ms); stdout = cell_sv; fclose(cell_ms);
+  if (NCELLS < 8192) CELLS[NCELLS++] = (struct cell) { cons, prod, cell_buf }; else free(cell_buf);
+}
+
+static void cells_flush(void) {
+  for (int i = 0; i < NCELLS; ++i) {
+    if (!CELLS[i].cons) continue;
+    const char *cons = CELLS[i].cons;
+    printf(" %s=", cons);
+    int firstc = 1;
+    for (int j = i; j < NCELLS; ++j) {
+      if (!CELLS[j].cons || strcmp(CELLS[j].cons, cons)) continue;
+      char *ans = CELLS[j].ans;
+      if (!firstc) putchar('|');
+      firstc = 0;
+      printf("%s@", ans[0] ? ans : "~");
+      int firstp = 1;
+      for (int k = j; k < NCELLS; ++k) {
+        if (!CELLS[k].cons || strcmp(CELLS[k].cons, cons) || (k != j && strcmp(CELLS[k].ans, ans))) continue;
+        if (!firstp) putchar(',');
+        firstp = 0;
+        fputs(CELLS[k].prod, stdout);
+        if (k != j) { CELLS[k].cons = 0; free(CELLS[k].ans); CELLS[k].ans = 0; }
+      }
+      CELLS[j].cons = 0; free(ans); CELLS[j].ans = 0;
+    }
+  }
+  NCELLS = 0;
+}
+
+#define MAXP 24
+struct tprod { const char *name; struct jbl_node *root; iwrc rc; };
+struct bprod { const char *name; struct jbl *jbl; iwrc rc; int disposal; }; // disposal: 0 none (pool), 1 jbl_destroy, 2 free
+struct prods {
+  struct tprod t[MAXP]; int nt;
+  struct bprod b[MAXP]; int nb;
+  struct jbl_node *heap_tree[4]; int heap_strings[4]; int nheap;
+  struct jbl_node *hand;
+  int has_nul, keys_alnum;
+};
+
+static void scan_tree(struct jbl_node *n, int *has_nul, int *keys_alnum) {
+  if (n->key) {
+    for (int i = 0; i < n->klidx; ++i) {
+      unsigned char c = (unsigned char) n->key[i];
+      if (!((c >= 'a' && c <= 'z') || (c >= 'A' && c <= 'Z') || (c >= '0' && c <= '9'))) *keys_alnum = 0;
+    }
+  }
+  if (n->type == JBV_STR && n->vsize && memchr(n->vptr, 0, n->vsize)) *has_nul = 1;
+  for (struct jbl_node *c = n->child; c; c = c->next) scan_tree(c, has_nul, keys_alnum);
+}
+
+// tree built through the typed jbn_add_item_* calls (keys and strings copied into the pool by the library)
+static iwrc api_fill(struct jbl_node *dst, struct jbl_node *src, struct iwpool *pool) {
+  iwrc rc = 0;
+  for (struct jbl_node *c = src->child; c && !rc; c = c->next) {
+    const char *key = src->type == JBV_OBJECT ? c->key : 0;
+    struct jbl_node *out = 0;
+    switch (c->type) {
+      case JBV_NULL: rc = jbn_add_item_null(dst, key, pool); break;
+      case JBV_BOOL: rc = jbn_add_item_bool(dst, key, c->vbool, 0, pool); break;
+      case JBV_I64: rc = jbn_add_item_i64(dst, key, c->vi64, 0, pool); break;
+      case JBV_F64: rc = jbn_add_item_f64(dst, key, c->vf64, 0, pool); break;
+      case JBV_STR: rc = jbn_add_item_str(dst, key, c->vptr, c->vsize, 0, pool); break;
+      case JBV_OBJECT: rc = jbn_add_item_obj(dst, key, &out, pool); if (!rc) rc = api_fill(out, c, pool); break;
+      case JBV_ARRAY: rc = jbn_add_item_arr(dst, key, &out, pool); if (!rc) rc = api_fill(out, c, pool); break;
+      default: rc = IW_ERROR_INVALID_ARGS;
+    }
+  }
+  return rc;
+}
+
+// binary document built member by member through jbl_set_* / jbl_set_nested
+static unsigned SET_ALT;
+static iwrc set_build(struct jbl **out, struct jbl_node *src) {
+  iwrc rc = src->type == JBV_OBJECT ? jbl_create_empty_object(out) : jbl_create_empty_array(out);
+  if (rc) return rc;
+  struct jbl *j = *out;
+  for (struct jbl_node *c = src->child; c && !rc; c = c->next) {
+    const char *key = src->type == JBV_OBJECT ? c->key : 0;
+    switch (c->type) {
+      case JBV_NULL: rc = jbl_set_null(j, key); break;
+      case JBV_BOOL: rc = jbl_set_bool(j, key, c->vbool); break;
+      case JBV_I64: rc = jbl_set_int64(j, key, c->vi64); break;
+      case JBV_F64: rc = jbl_set_f64(j, key, c->vf64); break;
+      case JBV_STR:
+        if (SET_ALT++ & 1) rc = jbl_set_string_printf(j, key, "%s", c->vptr); else rc = jbl_set_string(j, key, c->vptr);
+        break;
+      case JBV_OBJECT:
+      case JBV_ARRAY:
+        if (!c->child) {
+          rc = c->type == JBV_OBJECT ? jbl_set_empty_object(j, key) : jbl_set_empty_array(j, key);
+        } else {
+          struct jbl *sub = 0;
+          rc = set_build(&sub, c);
+          if (!rc) rc = jbl_set_nested(j, key, sub);
+          if (sub) jbl_destroy(&sub);
+        }
+        break;
+      default: rc = IW_ERROR_INVALID_ARGS;
+    }
+  }
+  return rc;
+}
+
+static int FREE_STRINGS;
+static iwrc free_vis(int lvl, struct jbl_node *n) {
+  if (FREE_STRINGS) {
+    if (n->key) free((void*) n->key);
+    if (n->type == JBV_STR && n->vptr) free((void*) n->vptr);
+  }
+  free(n);
+  return 0;
+}
+
+static void unterminate_keys(struct jbl_node *n, struct iwpool *pool) {
+  if (n->key) {
+    char *k = iwpool_alloc(n->klidx + 2, pool);
+    memcpy(k, n->key, n->klidx);
+    k[n->klidx] = '#';
+    k[n->klidx + 1] = 0;      // keeps a strcmp()/strlen() of a faulty reader inside the allocation
+    n->key = k;
+  }
+  for (struct jbl_node *c = n->child; c; c = c->next) unterminate_keys(c, pool);
+}
+
+static void add_t(struct prods *ps, const char *name, struct jbl_node *root, iwrc rc) {
+  if (!rc && !root) rc = IW_ERROR_FAIL;
+  ps->t[ps->nt++] = (struct tprod) { name, rc ? 0 : root, rc };
+}
+
+static struct jbl* add_b(struct prods *ps, const char *name, struct jbl *jbl, iwrc rc, int disposal) {
+  if (!rc && !jbl) rc = IW_ERROR_FAIL;
+  if (rc && jbl && disposal == 1) jbl_destroy(&jbl);
+  if (rc && jbl && disposal == 2) free(jbl);
+  ps->b[ps->nb++] = (struct bprod) { name, rc ? 0 : jbl, rc, disposal };
+  return rc ? 0 : jbl;
+}
+
+static void* bytes_copy(struct jbl *j, size_t *szp) {
+  void *b; size_t sz;
+  if (jbl_as_buf(j, &b, &sz)) return 0;
+  void *c = malloc(sz ? sz : 1);      // exact size: nothing readable behind the last byte of the document
+  memcpy(c, b, sz);
+  *szp = sz;
+  return c;
+}
+
+static int build_prods(struct prods *ps, const char *dump, const char *text, struct iwpool *pool) {
+  memset(ps, 0, sizeof(*ps));
+  struct jbl_node *hand = tree_of_dump(dump, pool);
+  if (!hand || hand->type < JBV_OBJECT) return 0;
+  ps->hand = hand;
+  ps->keys_alnum = 1;
+  scan_tree(hand, &ps->has_nul, &ps->keys_alnum);
+  iwrc rc;
+  struct jbl_node *n;
+  // ---- binary producers first (several tree producers borrow from them; they stay alive until drop_prods)
+  struct jbl *j = 0, *bnode, *bjson = 0, *bbuf = 0;
+  rc = jbl_from_node(&j, hand);
+  bnode = add_b(ps, "B.node", j, rc, 1);
+  j = 0;
+  rc = hand->type == JBV_OBJECT ? jbl_create_empty_array(&j) : jbl_create_empty_object(&j);   // the other type: refilled
+  if (!rc) rc = jbl_fill_from_node(j, hand);
+  add_b(ps, "B.fill", j, rc, 1);
+  if (text) {
+    j = 0; rc = jbl_from_json(&j, text); bjson = add_b(ps, "B.json", j, rc, 1);
+    j = 0; rc = jbl_from_json_printf(&j, "%s", text); add_b(ps, "B.jsonpf", j, rc, 1);
+  }
+  if (bnode) {
+    j = 0; rc = jbl_clone(bnode, &j); add_b(ps, "B.clone", j, rc, 1);
+    j = 0; rc = jbl_clone_into_pool(bnode, &j, pool); add_b(ps, "B.clonep", j, rc, 0);
+    size_t sz = 0;
+    void *c = bytes_copy(bnode, &sz);
+    j = 0; rc = c ? jbl_from_buf_keep(&j, c, sz, false) : IW_ERROR_FAIL;     // the jbl owns (frees) the copy
+    if (rc && c) free(c);
+    bbuf = add_b(ps, "B.buf", j, rc, 1);
+    c = bytes_copy(bnode, &sz);
+    char *cp = iwpool_alloc(sz ? sz : 1, pool);
+    if (c) { memcpy(cp, c, sz); free(c); }
+    j = malloc(jbl_structure_size());
+    rc = c ? jbl_from_buf_keep_onstack(j, cp, sz) : IW_ERROR_FAIL;
+    add_b(ps, "B.stack", j, rc, 2);
+    if (hand->type == JBV_OBJECT) {
+      j = 0; rc = jbl_create_empty_object(&j);
+      if (!rc) rc = jbl_object_copy_to(bnode, j);
+      add_b(ps, "B.copyto", j, rc, 1);
+    }
+  }
+  if (!ps->has_nul) {     // jbl_set_string takes a C string
+    j = 0; rc = set_build(&j, hand); add_b(ps, "B.set", j, rc, 1);
+  }
+  // ---- tree producers
+  add_t(ps, "T.hand", hand, 0);
+  n = 0; rc = jbn_from_json(hand->type == JBV_OBJECT ? "{}" : "[]", &n, pool);
+  if (!rc) rc = api_fill(n, hand, pool);
+  add_t(ps, "T.api", n, rc);
+  if (text) {
+    n = 0; rc = jbn_from_json(text, &n, pool); add_t(ps, "T.json", n, rc);
+    n = 0; rc = jbn_from_json_printf(&n, pool, "%s", text); add_t(ps, "T.jsonpf", n, rc);
+    if (ps->keys_alnum) { n = 0; rc = jbn_from_js(text, &n, pool); add_t(ps, "T.js", n, rc); }
+  }
+  struct jbl_node *back0 = 0;
+  if (bnode) {
+    n = 0; rc = jbl_to_node(bnode, &n, true, pool); add_t(ps, "T.back1", n, rc);
+    n = 0; rc = jbl_to_node(bnode, &n, false, pool); add_t(ps, "T.back0", n, rc);
+    back0 = rc ? 0 : n;
+    n = 0; rc = jbl_to_node(bnode, &n, false, 0); add_t(ps, "T.back0h", n, rc);
+    if (!rc && n) { ps->heap_tree[ps->nheap] = n; ps->heap_strings[ps->nheap++] = 0; }
+    if (!ps->has_nul) {   // without a pool strings are strndup()ed: cut at an embedded 0 (notes, "remaining")
+      n = 0; rc = jbl_to_node(bnode, &n, true, 0); add_t(ps, "T.back1h", n, rc);
+      if (!rc && n) { ps->heap_tree[ps->nheap] = n; ps->heap_strings[ps->nheap++] = 1; }
+    }
+  }
+  if (bbuf) { n = 0; rc = jbl_to_node(bbuf, &n, false, pool); add_t(ps, "T.back0x", n, rc); }
+  if (bjson) { n = 0; rc = jbl_to_node(bjson, &n, false, pool); add_t(ps, "T.jback0", n, rc); }
+  n = 0; rc = jbn_clone(hand, &n, pool); add_t(ps, "T.clone", n, rc);
+  if (!ps->has_nul) {
+    n = 0; rc = jbn_clone(hand, &n, 0); add_t(ps, "T.cloneh", n, rc);
+    if (!rc && n) { ps->heap_tree[ps->nheap] = n; ps->heap_strings[ps->nheap++] = 1; }
+  }
+  if (back0) { n = 0; rc = jbn_clone(back0, &n, pool); add_t(ps, "T.clone0", n, rc); }
+  // built node by node with keys that are counted by klidx only: "<key>#" - whatever the value is (in a tree borrowed from
+  // a binn buffer the byte behind a key is the type byte of the value, 0x00 for null, which acts as a terminator)
+  n = 0; rc = jbn_clone(hand, &n, pool);
+  if (!rc) unterminate_keys(n, pool);
+  add_t(ps, "T.handx", n, rc);
+  {
+    struct jbl_node *src = 0, *tgt = iwpool_calloc(sizeof(*tgt), pool);
+    rc = jbn_clone(hand, &src, pool);
+    if (!rc) jbn_apply_from(tgt, src);
+    add_t(ps, "T.apply", tgt, rc);
+  }
+  // ---- binary producers that need a tree or another binary
+  if (back0) { j = 0; rc = jbl_from_node(&j, back0); add_b(ps, "B.via0", j, rc, 1); }
+  if (bnode) {
+    struct jbl_ptr *jp = 0;
+    rc = jbl_ptr_alloc("", &jp);
+    j = 0;
+    if (!rc) rc = jbl_at2(bnode, jp, &j);
+    if (jp) free(jp);
+    if (!rc && j && j->bn.writable && j->bn.pbuf && j->bn.pbuf == bnode->bn.pbuf) j->bn.writable = 0;  // see safe_destroy
+    add_b(ps, "B.root", j, rc, 1);
+  }
+  return 1;
+}
+
+static void drop_prods(struct prods *ps) {
+  for (int i = 0; i < ps->nheap; ++i) {
+    FREE_STRINGS = ps->heap_strings[i];
+    jbn_visit2(ps->heap_tree[i], 0, free_vis);
+  }
+  for (int i = ps->nb - 1; i >= 0; --i) {    // borrowers were created after their owners
+    if (!ps->b[i].jbl) continue;
+    if (ps->b[i].disposal == 1) jbl_destroy(&ps->b[i].jbl);
+    else if (ps->b[i].disposal == 2) free(ps->b[i].jbl);
+  }
+}
+
+static void ans_node(iwrc rc, struct jbl_node *r) {
+  printf("%s:", rcname(rc));
+  if (!rc) dump_node(r);
+}
+
+// look-up by successive jbn_get calls (objects by key, arrays by index; an array segment must be a canonical number)
+static void get_walk(struct jbl_node *root, struct jbl_ptr *jp) {
+  struct jbl_node *cur = root;
+  iwrc rc = 0;
+  for (int i = 0; i < jp->cnt && !rc; ++i) {
+    const char *s = jp->n[i];
+    struct jbl_node *r = 0;
+    if (cur->type == JBV_OBJECT) {
+      rc = jbn_get(cur, s, 0, &r);
+    } else if (cur->type == JBV_ARRAY) {
+      size_t l = strlen(s);
+      int ok = l > 0 && l <= 9 && (s[0] != '0' || l == 1);
+      for (size_t k = 0; k < l; ++k) if (s[k] < '0' || s[k] > '9') ok = 0;
+      rc = ok ? jbn_get(cur, "", atoi(s), &r) : JBL_ERROR_PATH_NOTFOUND;
+    } else {
+      rc = JBL_ERROR_PATH_NOTFOUND;
+    }
+    cur = r;
+  }
+  ans_node(rc, cur);
+}
+
+static void put_cmp(int c, iwrc rc) {
+  if (rc) printf("E:%s", rcname(rc)); else printf("%d", sgn(c));
+}
+
+static void err_cells(const char **names, const char *prod, iwrc rc) {
+  for (int i = 0; names[i]; ++i) { cb(); printf("ERR-%s", rcname(rc)); ce(names[i], prod); }
+}
+
+static void hex_text(iwrc rc, struct iwxstr *x) {
+  printf("%s:", rcname(rc));
+  if (!rc) puthex(iwxstr_ptr(x), iwxstr_size(x));
+}
+
+static void mx_path(struct prods *ps, const char *path, const char *probe, struct iwpool *pool) {
+  struct jbl_ptr *jp = 0;
+  iwrc prc = jbl_ptr_alloc(path, &jp);
+  static const char *tn[] = { "at", "at2", "get", "cmp", "cmpv", "cp", "cps", 0 };
+  static const char *bn[] = { "bat", "bat2", "bget", 0 };
+  struct jbl_node *pn = 0;
+  if (probe && strcmp(probe, "-")) pn = tree_of_dump(probe, pool);
+  for (int i = 0; i < ps->nt; ++i) {
+    struct tprod *t = &ps->t[i];
+    if (t->rc) { err_cells(tn, t->name, t->rc); continue; }
+    struct jbl_node *r = 0;
+    iwrc rc;
+    cb(); rc = jbn_at(t->root, path, &r); ans_node(rc, r); ce("at", t->name);
+    if (!prc) {
+      cb(); r = 0; rc = jbn_at2(t->root, jp, &r); ans_node(rc, r); ce("at2", t->name);
+      cb(); get_walk(t->root, jp); ce("get", t->name);
+    }
+    {
+      iwrc crc = 0;
+      cb();
+      int c = jbn_path_compare(t->root, ps->hand, path, 0, &crc);
+      put_cmp(c, crc);
+      crc = 0;
+      c = jbn_paths_compare(ps->hand, path, t->root, path, 0, &crc);
+      putchar(','); put_cmp(c, crc);
+      ce("cmp", t->name);
+    }
+    if (pn) {
+      iwrc crc = 0;
+      int c = 0, done = 1;
+      cb();
+      switch (pn->type) {
+        case JBV_STR: c = jbn_path_compare_str(t->root, path, pn->vptr, &crc); break;
+        case JBV_I64: c = jbn_path_compare_i64(t->root, path, pn->vi64, &crc); break;
+        case JBV_F64: c = jbn_path_compare_f64(t->root, path, pn->vf64, &crc); break;
+        case JBV_BOOL: c = jbn_path_compare_bool(t->root, path, pn->vbool, &crc); break;
+        default: done = 0;
+      }
+      if (done) put_cmp(c, crc); else printf("NA");
+      ce("cmpv", t->name);
+    }
+    {
+      struct jbl_node *tgt = 0;
+      cb();
+      rc = jbn_from_json("{}", &tgt, pool);
+      if (!rc) rc = jbn_copy_path(t->root, path, tgt, "/r", true, false, pool);
+      printf("%s:", rcname(rc));
+      if (tgt) dump_node(tgt);
+      ce("cp", t->name);
+    }
+    if (!prc && jp->cnt == 1) {
+      struct jbl_node *tgt = 0;
+      const char *paths[2] = { path, 0 };
+      cb();
+      rc = jbn_from_json("{}", &tgt, pool);
+      if (!rc) rc = jbn_copy_paths(t->root, tgt, paths, true, false, pool);
+      printf("%s:", rcname(rc));
+      if (tgt) dump_node(tgt);
+      ce("cps", t->name);
+    }
+  }
+  for (int i = 0; i < ps->nb; ++i) {
+    struct bprod *b = &ps->b[i];
+    if (b->rc) { err_cells(bn, b->name, b->rc); continue; }
+    struct jbl *res = 0;
+    iwrc rc;
+    cb();
+    rc = jbl_at(b->jbl, path, &res);
+    printf("%s:", rcname(rc));
+    if (!rc) {
+      dump_jbl(res, pool);
+      if (res != b->jbl && res->bn.writable && !res->bn.pre_allocated && res->bn.pbuf && res->bn.pbuf == b->jbl->bn.pbuf) {
+        printf("!ALIAS"); res->bn.writable = 0;
+      }
+      jbl_destroy(&res);
+    }
+    ce("bat", b->name);
+    if (!prc) {
+      cb();
+      res = 0;
+      rc = jbl_at2(b->jbl, jp, &res);
+      printf("%s:", rcname(rc));
+      if (!rc) {
+        dump_jbl(res, pool);
+        if (res != b->jbl && res->bn.writable && !res->bn.pre_allocated && res->bn.pbuf && res->bn.pbuf == b->jbl->bn.pbuf) {
+          printf("!ALIAS"); res->bn.writable = 0;
+        }
+        jbl_destroy(&res);
+      }
+      ce("bat2", b->name);
+      if (jp->cnt == 1 && jbl_type(b->jbl) == JBV_OBJECT) {
+        struct jbl *h = 0;
+        cb();
+        jbl_type_t ty = jbl_object_get_type(b->jbl, jp->n[0]);
+        rc = jbl_create_iterator_holder(&h);
+        if (!rc) rc = jbl_object_get_fill_jbl(b->jbl, jp->n[0], h);
+        printf("%d:%s:", (int) ty, rc == JBL_ERROR_CREATION ? "NF" : rcname(rc));
+        if (!rc) dump_jbl(h, pool);
+        if (h) jbl_destroy(&h);
+        // the typed getters, for the type just reported
+        putchar('+');
+        const char *k1 = jp->n[0];
+        if (ty == JBV_I64) { int64_t v = 0; rc = jbl_object_get_i64(b->jbl, k1, &v); printf("%s:i%" PRId64 ";", rcname(rc), v); }
+        else if (ty == JBV_F64) { double v = 0; uint64_t bits; rc = jbl_object_get_f64(b->jbl, k1, &v); memcpy(&bits, &v, 8); printf("%s:d%016" PRIx64, rcname(rc), bits); }
+        else if (ty == JBV_BOOL) { bool v = 0; rc = jbl_object_get_bool(b->jbl, k1, &v); printf("%s:%c", rcname(rc), v ? 't' : 'f'); }
+        else if (ty == JBV_STR && !ps->has_nul) {
+          const char *v = 0; rc = jbl_object_get_str(b->jbl, k1, &v);
+          printf("%s:s", rcname(rc));
+          for (size_t q = 0; !rc && v && v[q]; ++q) printf("%02x", (uint8_t) v[q]);
+          putchar(';');
+        }
+        ce("bget", b->name);
+      }
+    }
+  }
+  if (jp) free(jp);
+}
+
+static void dump_iter(struct jbl *j, struct iwpool *pool) {
+  struct jbl *h = 0;
+  JBL_iterator it;
+  iwrc rc = jbl_create_iterator_holder(&h);
+  if (!rc) rc = jbl_iterator_init(j, &it);
+  if (rc) { printf("ERR-%s", rcname(rc)); if (h) jbl_destroy(&h); return; }
+  int obj = jbl_type(j) == JBV_OBJECT;
+  putchar(obj ? '{' : '[');
+  char *k; int kl;
+  while (jbl_iterator_next(&it, h, &k, &kl)) {
+    if (obj) {
+      putchar('K');
+      for (int i = 0; i < kl; ++i) printf("%02x", (uint8_t) k[i]);
+      putchar(';');
+    }
+    dump_jbl(h, pool);
+  }
+  putchar(obj ? '}' : ']');
+  jbl_destroy(&h);
+}
+
+static void put_bytes(struct jbl *j) {
+  void *b; size_t sz;
+  iwrc rc = jbl_as_buf(j, &b, &sz);
+  if (rc) printf("ERR-%s", rcname(rc)); else puthex(b, sz);
+}
+
+static void mx_value(struct prods *ps, struct iwpool *pool) {
+  static const char *tn[] = { "dump", "js", "jsp", "eq", "len", "tb", "cl", 0 };
+  static const char *bn[] = { "buf", "js", "jsp", "n1", "n0", "cnt", "it", "bcl", "bclp", 0 };
+  for (int i = 0; i < ps->nt; ++i) {
+    struct tprod *t = &ps->t[i];
+    if (t->rc) { err_cells(tn, t->name, t->rc); continue; }
+    iwrc rc;
+    cb(); dump_node(t->root); ce("dump", t->name);
+    {
+      struct iwxstr *x = iwxstr_create_empty();
+      cb(); rc = jbn_as_json(t->root, jbl_xstr_json_printer, x, 0); hex_text(rc, x); ce("js", t->name);
+      iwxstr_destroy(x);
+      char *txt = 0;
+      cb(); rc = jbn_as_json_alloc(t->root, JBL_PRINT_PRETTY, &txt);
+      printf("%s:", rcname(rc)); if (!rc) puthex(txt, strlen(txt));
+      ce("jsp", t->name);
+      free(txt);
+    }
+    {
+      iwrc r1 = 0, r2 = 0;
+      cb();
+      int c1 = jbn_compare_nodes(t->root, ps->hand, &r1), c2 = jbn_compare_nodes(ps->hand, t->root, &r2);
+      put_cmp(c1, r1); putchar(','); put_cmp(c2, r2);
+      ce("eq", t->name);
+    }
+    cb(); printf("%d", jbn_length(t->root)); ce("len", t->name);
+    {
+      struct jbl *j = 0;
+      cb();
+      rc = jbl_from_node(&j, t->root);
+      if (rc) printf("ERR-%s", rcname(rc)); else put_bytes(j);
+      if (j) jbl_destroy(&j);
+      ce("tb", t->name);
+    }
+    {
+      struct jbl_node *c = 0;
+      cb(); rc = jbn_clone(t->root, &c, pool); if (rc) printf("ERR-%s", rcname(rc)); else dump_node(c); ce("cl", t->name);
+    }
+  }
+  for (int i = 0; i < ps->nb; ++i) {
+    struct bprod *b = &ps->b[i];
+    if (b->rc) { err_cells(bn, b->name, b->rc); continue; }
+    iwrc rc;
+    cb(); put_bytes(b->jbl); ce("buf", b->name);
+    {
+      struct iwxstr *x = iwxstr_create_empty();
+      cb(); rc = jbl_as_json(b->jbl, jbl_xstr_json_printer, x, 0); hex_text(rc, x); ce("js", b->name);
+      iwxstr_destroy(x);
+      char *txt = 0;
+      cb(); rc = jbl_as_json_alloc(b->jbl, JBL_PRINT_PRETTY, &txt);
+      printf("%s:", rcname(rc)); if (!rc) puthex(txt, strlen(txt));
+      ce("jsp", b->name);
+      free(txt);
+    }
+    {
+      struct jbl_node *n = 0;
+      cb(); rc = jbl_to_node(b->jbl, &n, true, pool); if (rc) printf("ERR-%s", rcname(rc)); else dump_node(n); ce("n1", b->name);
+      n = 0;
+      cb(); rc = jbl_to_node(b->jbl, &n, false, pool); if (rc) printf("ERR-%s", rcname(rc)); else dump_node(n); ce("n0", b->name);
+    }
+    cb(); printf("%d:%zu", (int) jbl_type(b->jbl), jbl_count(b->jbl)); ce("cnt", b->name);
+    cb(); dump_iter(b->jbl, pool); ce("it", b->name);
+    {
+      struct jbl *c = 0;
+      cb(); rc = jbl_clone(b->jbl, &c); if (rc) printf("ERR-%s", rcname(rc)); else put_bytes(c); ce("bcl", b->name);
+      if (c) jbl_destroy(&c);
+      c = 0;
+      cb(); rc = jbl_clone_into_pool(b->jbl, &c, pool); if (rc) printf("ERR-%s", rcname(rc)); else put_bytes(c); ce("bclp", b->name);
+    }
+  }
+}
+
 int main(void) {
   static char line[1 << 22];
   char *tv[8];
@@ -408,6 +946,32 @@ int main(void) {
         if (jp) free(jp);
       }
       free(path);
+    } else if (!strcmp(tv[0], "mx") && n >= 5) {
+      // mx <dump> <hex ptr> <probe dump|-> <hex json text|->
+      uint8_t *path, *txt = 0;
+      unhex0(tv[2], &path);
+      if (strcmp(tv[4], "-")) unhex0(tv[4], &txt);
+      static struct prods ps;
+      if (!build_prods(&ps, tv[1], (char*) txt, pool)) printf("BAD-DUMP"); else {
+        put_ptr((char*) path);
+        printf(" flags=%d%d", ps.has_nul, ps.keys_alnum);
+        mx_path(&ps, (char*) path, tv[3], pool);
+        cells_flush();
+        drop_prods(&ps);
+      }
+      free(path); free(txt);
+    } else if (!strcmp(tv[0], "mxc") && n >= 3) {
+      // mxc <dump> <hex json text|->
+      uint8_t *txt = 0;
+      if (strcmp(tv[2], "-")) unhex0(tv[2], &txt);
+      static struct prods ps;
+      if (!build_prods(&ps, tv[1], (char*) txt, pool)) printf("BAD-DUMP"); else {
+        printf("flags=%d%d", ps.has_nul, ps.keys_alnum);
+        mx_value(&ps, pool);
+        cells_flush();
+        drop_prods(&ps);
+      }
+      free(txt);
     } else if (!strcmp(tv[0], "dec") && n >= 2) {
       uint8_t *b;
       size_t sz = unhex0(tv[1], &b);
